@@ -1,6 +1,8 @@
 package props
 
 import (
+	"bytes"
+	"crypto/tls"
 	"fmt"
 	"strings"
 	"sync/atomic"
@@ -20,7 +22,7 @@ func init() {
 			"two parameters) interleaved with other traffic must each be answered by exactly PONG :<token>, in order; (d) client PINGs: in virtual time (testing/synctest bubble, go1.26.8) the instants of client PINGs over a span must be the " +
 			"multiples of PingFreq when it is positive and there must be none in a virtual hour when it is <= 0. distinct_nontrivial = distinct configuration cells (spelling x SSL x dialer | nick/ident/name/pass/cap/tracking shape x connect ordinal | token class | PingFreq).",
 		Assumptions: []string{
-			"with SSL the dial is observed and then refused (the TLS handshake itself is crypto/tls's business); bare unbracketed IPv6 literals are ambiguous and not generated",
+			"in the dial grid an SSL dial is observed and then refused; the separate 'tls' batch completes real TLS handshakes against a server on the in-memory transport (certificate generated at run time); bare unbracketed IPv6 literals are ambiguous and not generated",
 			"virtual time: built with go1.26.8 instead of the repository's go1.23.5 (same source, different compiler)",
 		},
 		Plan: func(tier string, seed int64) []Batch {
@@ -28,6 +30,7 @@ func init() {
 				{Name: "dial", Args: map[string]string{"mode": "dial"}, Race: true, Procs: 2},
 				{Name: "reg", Args: map[string]string{"mode": "reg"}, Race: true, Procs: 4},
 				{Name: "ping", Args: map[string]string{"mode": "ping"}, Race: true, Procs: 4},
+				{Name: "tls", Args: map[string]string{"mode": "tls"}, Race: true, Procs: 4},
 				{Name: "vping", Kind: "synctest", Args: map[string]string{"test": "TestC18Pings"}, Race: true, Weight: 4},
 			}
 			if tier == "thorough" {
@@ -47,6 +50,86 @@ func runC18(c *Ctx) {
 		runC18Reg(c)
 	case "ping":
 		runC18Ping(c)
+	case "tls":
+		runC18TLS(c)
+	}
+}
+
+// runC18TLS: with SSL set the client dials the 6697 default, completes a real TLS handshake with a server
+// sitting on the in-memory transport, registers through it and answers PINGs through it.
+func runC18TLS(c *Ctx) {
+	_, pool, err := rig.TestTLS()
+	if err != nil {
+		c.R.Inconcl("cannot generate a test certificate: " + err.Error())
+		return
+	}
+	idx := 0
+	for _, server := range []string{"irc.test", "irc.test:7000", "irc.test:6697"} {
+		for _, pass := range []string{"", "tlspass"} {
+			for _, ctxd := range []bool{false, true} {
+				if !c.Want("tls", idx) {
+					idx++
+					continue
+				}
+				c.J.Log("CASE %s server=%s pass=%q ctxdialer=%v", Case("tls", idx), server, pass, ctxd)
+				s := NewSession(SessionOpts{Flood: true, CtxAware: ctxd, Mutate: func(cfg *client.Config) {
+					cfg.Server, cfg.SSL, cfg.Pass = server, true, pass
+					cfg.SSLConfig = &tls.Config{RootCAs: pool, ServerName: "irc.test"}
+				}})
+				var srv *rig.TLSServer
+				s.EP.Prepare(func(mc *rig.MemConn) { srv = rig.ServeTLS(mc) })
+				viol := func(kind, detail string) {
+					c.R.Violate(rig.Violation{Sig: "c18|tls-" + kind, Detail: fmt.Sprintf("server %q pass=%q: %s", server, pass, detail), Case: Case("tls", idx)})
+				}
+				connErr := make(chan error, 1)
+				go func() { connErr <- s.Conn.Connect() }()
+				var cerr error
+				select {
+				case cerr = <-connErr:
+				case <-time.After(WaitLong):
+					c.R.Inconcl("Connect with SSL did not return")
+					return
+				}
+				c.R.Eval(1)
+				if cerr != nil {
+					viol("connect", "Connect failed: "+cerr.Error())
+				} else {
+					d := s.EP.Dials()
+					want := server
+					if !strings.Contains(server, ":") {
+						want += ":6697"
+					}
+					if len(d) != 1 || d[0].Addr != want {
+						viol("dial-address", fmt.Sprintf("dialled %v, want %q", d, want))
+					}
+					if !srv.WaitLine(WaitLong, func(l string) bool { return strings.HasPrefix(l, "USER ") }) {
+						viol("registration", fmt.Sprintf("no USER line through TLS (handshake error: %v); lines %q", srv.Err, srv.Lines()))
+					} else {
+						srv.Send("PING :over-tls")
+						if !srv.WaitLine(WaitLong, func(l string) bool { return l == "PONG :over-tls" }) {
+							viol("pong", "PING through TLS was not answered")
+						}
+						var want []string
+						if pass != "" {
+							want = append(want, "PASS "+pass)
+						}
+						want = append(want, "NICK me", "USER ident 12 * :Real Name", "PONG :over-tls")
+						if got := srv.Lines(); strings.Join(got, "\n") != strings.Join(want, "\n") {
+							viol("registration", fmt.Sprintf("decrypted lines %q, want %q", got, want))
+						}
+						// the bytes on the transport are ciphertext
+						if bytes.Contains(s.EP.Last().Transcript(), []byte("NICK me")) {
+							viol("plaintext", "registration went over the transport in clear although SSL is set")
+						}
+					}
+					CloseWatched(s.Conn)
+				}
+				c.R.Class(fmt.Sprintf("tls|port-given=%v|pass=%v|ctxdialer=%v", strings.Contains(server, ":"), pass != "", ctxd))
+				c.R.Sample(map[string]interface{}{"tls_session": server, "decrypted_lines": srv.Lines()})
+				s.Release()
+				idx++
+			}
+		}
 	}
 }
 
